@@ -64,7 +64,7 @@ macro "unfold_light" : tactic => `(tactic|
     Ind.accelerationBands, Ind.trueRange, Ind.atr, Ind.atrIdle, Ind.keltnerChannel, Ind.trima, Ind.trimaPeriods,
     Ind.apo, Ind.dema, Ind.emv, Ind.fi, Ind.tsi, Ind.kdj, Ind.ichimokuCloud, Ind.stochasticOscillator, Ind.williamsR,
     Ind.donchianChannel, Ind.stochasticRsi, Ind.chandelierExit, Ind.hma, Ind.bollingerBands, Ind.bbUpper, Ind.bbLower,
-    Ind.bollingerBandWidth, Ind.percentB,
+    Ind.bollingerBandWidth, Ind.percentB, Ind.po,
     Ind.i0, Ind.i1, Ind.i2, Ind.i3, List.getD_cons_zero, List.getD_cons_succ, List.getD_nil])
 
 /-- derive `Agree x e ?P` structurally (primitive rules first, so that `sma`, `ema` … stay folded) -/
@@ -74,6 +74,7 @@ macro_rules
   (repeat' (first
       | apply Sig.Agree.maOf $N
       | apply Sig.Agree.movingSum
+      | apply Sig.Agree.countOne
       | apply Sig.Agree.movingMax
       | apply Sig.Agree.wma
       | apply Sig.Agree.movingStd
